@@ -29,6 +29,9 @@ type misKnobs struct {
 	Rebase       bool   `json:"metadata_url_changes_after_first_use"`           // entity ID unset: after the first delivery the application changes MetadataURL (a per-tenant clone of a template SP); the audience follows
 	MaxIssueMs   int64  `json:"MaxIssueDelay_ms"`
 	MaxClockSkew int64  `json:"MaxClockSkew_ms"`
+	// ReqIDHook: the application installs ValidateRequestID (one that matches InResponseTo exactly like the library's default):
+	// which request a response answers is the one thing the hook decides
+	ReqIDHook bool `json:"custom_request_id_validator,omitempty"`
 }
 
 type misStep struct {
@@ -101,6 +104,7 @@ func genMisroute(g *Rng, tier string) *Plan {
 	k := misKnobs{EntityIDSet: g.Bool(0.5), CustomAud: g.Bool(0.2), ReceivedAt: Pick(g, "acs", "acs", "acs-query", "relative"), AllowIDP: g.Bool(0.2), Rebase: g.Bool(0.15),
 		MaxIssueMs: Pick(g, int64(7000), 90_000), MaxClockSkew: Pick(g, int64(1000), 180_000)}
 	k.FaultyAud = k.CustomAud && g.Bool(0.4)
+	k.ReqIDHook = g.Bool(0.2)
 	k.Fingerprint = g.Bool(0.15)
 	if k.EntityIDSet && g.Bool(0.35) {
 		k.EntityID = Pick(g, "my-service", "sp.example.com", "sp/prod", "SP 1")
@@ -348,6 +352,22 @@ func execMisroute(t *testing.T, p *Plan) *Result {
 		recvAt = mustURL("/saml/acs")
 	}
 	spv.AllowIDPInitiated = k.AllowIDP
+	if k.ReqIDHook {
+		// the application matches responses to requests itself, the way the library does by default
+		res.probe("config:custom-request-id-validator")
+		allow := k.AllowIDP
+		spv.ValidateRequestID = func(r saml.Response, possible []string) error {
+			for _, id := range possible {
+				if r.InResponseTo == id {
+					return nil
+				}
+			}
+			if allow {
+				return nil
+			}
+			return fmt.Errorf("custom validator: not an answer to a request of ours")
+		}
+	}
 	begin := time.Now()
 	rebase := k.Rebase && !k.EntityIDSet && !k.CustomAud
 	for si, raw := range p.Steps {
